@@ -27,7 +27,7 @@ var c10 = core.Register(&core.Prop{
 	Shards: func(tier string) int { return pickTier(tier, 8, 16) },
 	Floors: func(c map[string]int64, tier string) []string {
 		var out []string
-		for _, k := range []string{"analyses", "paths_expected", "refusals_expected", "callee_excluded", "locals_filtered", "sufficiency_pairs", "sufficiency_restricted_smaller", "in:typeof", "in:cond", "in:arr", "in:call", "in:pre", "in:paren", "in:bin"} {
+		for _, k := range []string{"analyses", "paths_expected", "refusals_expected", "callee_excluded", "locals_filtered", "sufficiency_pairs", "sufficiency_restricted_smaller", "in:typeof", "in:cond", "in:arr", "in:call", "in:pre", "in:paren", "in:bin", "repeated_mention_cases"} {
 			if c[k] == 0 {
 				out = append(out, "coverage floor: no "+k)
 			}
@@ -257,7 +257,7 @@ var c10Fields = core.Mon(c10, "fields", func(w *core.W, c *FieldCase) {
 
 func c10Cfg() *gen.ProgCfg {
 	cfg := fixNums(EvalSyntax())
-	cfg.Idents = []string{"n0", "n1", "s0", "s1", "b0", "z", "m", "tm", "arr", "st", "pst", "nilp", "nd", "x0", "x1", "undefinedname", "$v", "$w", "abs"}
+	cfg.Idents = []string{"n0", "n1", "s0", "s1", "b0", "z", "m", "tm", "arr", "st", "pst", "nilp", "nd", "x0", "x1", "undefinedname", "$v", "$w", "abs", "N0", "S0", "$V", "M"}
 	cfg.Kws = []string{"null", "true", "false"}
 	cfg.WSel = 22
 	cfg.WTypeof = 6
@@ -313,4 +313,22 @@ func runC10(w *core.W) {
 		}
 	}
 	w.ExhaustivePart("every pair of 24 wrapping constructs around 15 inner expressions (names, paths, calls, member access on non-paths)")
+	// 4. repeated mentions: names and paths that differ only in letter case, in a prefix, or not at all, in every order
+	// (the reported fields are the DISTINCT reads: each exactly once, whatever the order of mention)
+	names := []string{"a", "A", "a.b", "A.b", "a.B", "$l", "$L", "aa", "Aa", "a.b.c", "ab"}
+	for _, x := range names {
+		for _, y := range names {
+			for _, z := range names {
+				for _, t := range []string{"f(%x, %y, %z)", "%x > 0 ? %y : %z", "[%x, %y, %z, %x]", "%x + %y + %z + %y", "%x(%y, %z, %y)"} {
+					idx++
+					if !w.Mine(idx) {
+						continue
+					}
+					src := strings.NewReplacer("%x", x, "%y", y, "%z", z).Replace(t)
+					c10Fields(w, &FieldCase{Src: src})
+					w.Count("repeated_mention_cases")
+				}
+			}
+		}
+	}
 }
